@@ -311,6 +311,16 @@ def rule_twopass(c, prog):
                 n_dict += 1
                 if x["m"] not in GROW | READ:
                     shrink.append((f2.path, x["m"], core.loc(x)))
+    # registration is unconditional: every function that grows the collection does so on every path
+    for f2 in prog.lib_fns():
+        if f2.body is None or f2.crate != "rbx_xml":
+            continue
+        grows = [x for x in core.walk_fn(f2) if x.get("k") == "MethodCall" and is_dict(x["recv"]) and x["m"] in GROW]
+        if not grows:
+            continue
+        cond = [y for y in core.walk_fn(f2) if (y.get("k") == "If" or (y.get("k") == "Match" and y.get("src") == "Normal")) and (any(g_ is z for g_ in grows for z in core.walk(y)) or any(z.get("k") == "Ret" and core.as_try(z) is None for z in core.walk(y)))]
+        if cond:
+            shrink.append((f2.path, "conditional " + grows[0]["m"], core.loc(cond[0])))
     ssf = prog.fn("rbx_xml::serializer::serialize_shared_strings")
     loop_ok = False
     why = "no loop over the collected strings writes the entries"
@@ -335,7 +345,7 @@ def rule_twopass(c, prog):
         else:
             loop_ok = True
     if shrink:
-        c.violation(R, f"writer|dictionary-shrinks|{shrink[0][1]}", f"{shrink[0][0]} applies `{shrink[0][1]}` to the set of SharedStrings to emit: a string whose hash a property element already refers to is dropped from the dictionary, and the reader leaves its empty-BinaryString placeholder in place of it", shrink[0][2], instance="writer:dictionary-complete")
+        c.violation(R, f"writer|dictionary-shrinks|{shrink[0][1].replace(' ', '-')}", f"{shrink[0][0]} applies `{shrink[0][1]}` to the set of SharedStrings to emit: a string whose hash a property element refers to is missing from the dictionary, and the reader leaves its empty-BinaryString placeholder in place of it", shrink[0][2], instance="writer:dictionary-complete")
     elif not loop_ok:
         c.violation(R, "writer|dictionary-skips", f"serialize_shared_strings does not write an entry for every collected SharedString ({why}): the property element still carries the hash, so the value comes back as the reader's placeholder (an empty BinaryString) instead of the SharedString", ssf.sp, instance="writer:dictionary-complete")
     elif n_dict < 2:
